@@ -8,7 +8,9 @@ import (
 	"errors"
 	"fmt"
 	"math/rand"
+	"os"
 	"runtime"
+	"runtime/debug"
 	"sort"
 	"strings"
 	"sync"
@@ -19,7 +21,12 @@ import (
 	metav1 "k8s.io/apimachinery/pkg/apis/meta/v1"
 	"k8s.io/apimachinery/pkg/apis/meta/v1/unstructured"
 	"k8s.io/apimachinery/pkg/util/intstr"
+	"github.com/go-logr/logr"
+	"k8s.io/apimachinery/pkg/runtime/schema"
 	"k8s.io/client-go/util/workqueue"
+	"sigs.k8s.io/controller-runtime/pkg/handler"
+	"sigs.k8s.io/controller-runtime/pkg/predicate"
+	"sigs.k8s.io/controller-runtime/pkg/source"
 	"sigs.k8s.io/controller-runtime/pkg/event"
 	corev1 "k8s.io/api/core/v1"
 	netv1 "k8s.io/api/networking/v1"
@@ -36,6 +43,7 @@ import (
 	"github.com/openkruise/rollouts/pkg/controller/rollout"
 	expectations "github.com/openkruise/rollouts/pkg/util/expectation"
 	"github.com/openkruise/rollouts/pkg/util/luamanager"
+	"github.com/openkruise/rollouts/pkg/trafficrouting"
 	"github.com/openkruise/rollouts/pkg/util/grace"
 
 	"verifharness/emit"
@@ -61,6 +69,9 @@ type ISOInput struct {
 	Tenants  []ISOTenant   `json:"tenants,omitempty"` // expect-cp: canary-style BatchReleases, one per namespace
 	Sched    []ISOTenantOp `json:"sched,omitempty"`   // expect-cp: the interleaving of their reconciles and informer events
 	Scripts  []string      `json:"scripts,omitempty"` // lua: per worker the script it runs Rounds times
+	Names    []string      `json:"names,omitempty"`   // names: per tenant the name of its stable Service (all in ONE namespace)
+	NSched   []ISOTenantOp `json:"nsched,omitempty"`  // names: interleaving of traffic-manager calls (do | finalise)
+	WOps     []ISOWatchOp  `json:"wops,omitempty"`    // watch: Rollout reconciles of custom workload types, with the outcome of registering the watch
 	Rounds   int          `json:"rounds,omitempty"`
 	SameNS   bool         `json:"same_ns,omitempty"` // informational: the builders place every rollout in its own namespace
 }
@@ -86,7 +97,33 @@ type ISOTenantOp struct {
 	Op     string `json:"op"` // reconcile (control-plane Initialize) | observe (the informer delivers the tenant's canary Deployments)
 }
 
+// ISOWatchOp: one Rollout (its own object) of workload kind Kind is reconciled; WatchOK: a dynamic Watch call would succeed.
+type ISOWatchOp struct {
+	Kind    string `json:"kind"`
+	WatchOK bool   `json:"watch_ok"`
+}
+
+// scriptedController is the controller the reconciler registers dynamic watches on.
+type scriptedController struct {
+	ok    bool
+	calls int
+}
+
+func (c *scriptedController) Reconcile(context.Context, ctrl.Request) (ctrl.Result, error) {
+	return ctrl.Result{}, nil
+}
+func (c *scriptedController) Watch(src source.Source, h handler.EventHandler, p ...predicate.Predicate) error {
+	c.calls++
+	if !c.ok {
+		return errors.New("injected: the watch could not be established")
+	}
+	return nil
+}
+func (c *scriptedController) Start(context.Context) error { return nil }
+func (c *scriptedController) GetLogger() logr.Logger      { return logr.Discard() }
+
 type ISOObs struct {
+	WRes []string `json:"wres,omitempty"` // watch: per reconcile proceed | watched-now | error
 	Panic    string      `json:"panic,omitempty"`
 	Answers  []*bool     `json:"answers,omitempty"`  // interleaved run
 	Alone    [][]bool    `json:"alone,omitempty"`    // per owner: the answers when only that owner's calls (and the global events) run
@@ -212,6 +249,9 @@ func isoReconcile(cli client.Client, ns string, rounds int, jitter bool) (panick
 	defer func() {
 		if p := recover(); p != nil {
 			panicked = fmt.Sprint(p)
+			if os.Getenv("VERIF_STACK") != "" {
+				fmt.Fprintf(os.Stderr, "PANIC %v\n%s\n", p, debug.Stack())
+			}
 		}
 	}()
 	rec := rollout.VerifNewReconciler(cli, FullScheme(), record.NewFakeRecorder(100000))
@@ -341,6 +381,90 @@ func isoRunLua(script string, weight int) string {
 	return string(by)
 }
 
+// isoRunNames: several Rollouts of ONE namespace drive the traffic manager (nginx Ingress) for their own stable Service;
+// returns per tenant a digest of the Services and canary Ingress that belong to it.
+func isoRunNames(in ISOInput, only int) []string {
+	grace.ResetExpectations()
+	defer grace.ResetExpectations()
+	var objs []client.Object
+	pt := netv1.PathTypePrefix
+	ports := []corev1.ServicePort{{Port: 80, TargetPort: intstr.FromInt(8080)}}
+	for i, name := range in.Names {
+		objs = append(objs, &corev1.Service{ObjectMeta: metav1.ObjectMeta{Namespace: "ns", Name: name, UID: types.UID(fmt.Sprintf("svc-uid-%d", i))},
+			Spec: corev1.ServiceSpec{Selector: map[string]string{"app": fmt.Sprintf("app-%d", i)}, Ports: ports}})
+		objs = append(objs, &netv1.Ingress{ObjectMeta: metav1.ObjectMeta{Namespace: "ns", Name: fmt.Sprintf("ing-%d", i), Annotations: map[string]string{"kubernetes.io/ingress.class": "nginx"}},
+			Spec: netv1.IngressSpec{Rules: []netv1.IngressRule{{Host: fmt.Sprintf("t%d.example.com", i), IngressRuleValue: netv1.IngressRuleValue{HTTP: &netv1.HTTPIngressRuleValue{
+				Paths: []netv1.HTTPIngressPath{{Path: "/", PathType: &pt, Backend: netv1.IngressBackend{Service: &netv1.IngressServiceBackend{Name: name, Port: netv1.ServiceBackendPort{Number: 80}}}}}}}}}}})
+	}
+	cli := fake.NewClientBuilder().WithScheme(FullScheme()).WithObjects(objs...).Build()
+	m := trafficrouting.NewTrafficRoutingManager(cli)
+	ctxOf := func(i int) *trafficrouting.TrafficRoutingContext {
+		w := "30%"
+		return &trafficrouting.TrafficRoutingContext{Key: fmt.Sprintf("Rollout(ns/ro-%d)", i), Namespace: "ns", Strategy: v1beta1.TrafficRoutingStrategy{Traffic: &w},
+			OwnerRef:         metav1.OwnerReference{APIVersion: "rollouts.kruise.io/v1beta1", Kind: "Rollout", Name: fmt.Sprintf("ro-%d", i), UID: types.UID(fmt.Sprintf("ro-uid-%d", i))},
+			RevisionLabelKey: "pod-template-hash", StableRevision: fmt.Sprintf("stable-%d", i), CanaryRevision: fmt.Sprintf("canary-%d", i),
+			ObjectRef:      []v1beta1.TrafficRoutingRef{{Service: in.Names[i], GracePeriodSeconds: 1, Ingress: &v1beta1.IngressTrafficRouting{Name: fmt.Sprintf("ing-%d", i)}}},
+			LastUpdateTime: &metav1.Time{Time: time.Now().Add(-time.Hour)}}
+	}
+	res := make([]string, len(in.Names))
+	for _, op := range in.NSched {
+		if only >= 0 && op.Tenant != only {
+			continue
+		}
+		grace.VerifAge(10 * time.Second)
+		c := ctxOf(op.Tenant)
+		var done bool
+		var err error
+		if op.Op == "finalise" {
+			done, err = m.FinalisingTrafficRouting(c)
+		} else {
+			done, err = m.DoTrafficRouting(c)
+		}
+		res[op.Tenant] += fmt.Sprintf("%s:%v/%v;", op.Op, done, err != nil)
+	}
+	// what belongs to each tenant afterwards
+	svcs := &corev1.ServiceList{}
+	_ = cli.List(context.TODO(), svcs, client.InNamespace("ns"))
+	for i, name := range in.Names {
+		var mine []string
+		for _, s := range svcs.Items {
+			owned := false
+			for _, o := range s.OwnerReferences {
+				if o.UID == types.UID(fmt.Sprintf("ro-uid-%d", i)) {
+					owned = true
+				}
+			}
+			if s.Name == name || owned {
+				role := "stable"
+				if s.Name != name {
+					role = "canary"
+				}
+				by, _ := json.Marshal(s.Spec.Selector)
+				mine = append(mine, role+string(by))
+			}
+		}
+		sort.Strings(mine)
+		ing := &netv1.Ingress{}
+		route := "no-canary-ingress"
+		if err := cli.Get(context.TODO(), types.NamespacedName{Namespace: "ns", Name: fmt.Sprintf("ing-%d-canary", i)}, ing); err == nil {
+			backend := ""
+			if len(ing.Spec.Rules) > 0 && ing.Spec.Rules[0].HTTP != nil && len(ing.Spec.Rules[0].HTTP.Paths) > 0 && ing.Spec.Rules[0].HTTP.Paths[0].Backend.Service != nil {
+				backend = ing.Spec.Rules[0].HTTP.Paths[0].Backend.Service.Name
+			}
+			// does the backend of my canary route exist, and whose pods does it select
+			b := &corev1.Service{}
+			if err := cli.Get(context.TODO(), types.NamespacedName{Namespace: "ns", Name: backend}, b); err == nil {
+				by, _ := json.Marshal(b.Spec.Selector)
+				route = "weight=" + ing.Annotations["nginx.ingress.kubernetes.io/canary-weight"] + " backend-selects" + string(by)
+			} else {
+				route = "weight=" + ing.Annotations["nginx.ingress.kubernetes.io/canary-weight"] + " backend-missing"
+			}
+		}
+		res[i] += "|" + strings.Join(mine, ",") + "|" + route
+	}
+	return res
+}
+
 func (isolationEngine) Run(inAny any) (out any) {
 	in := inAny.(ISOInput)
 	obs := ISOObs{}
@@ -350,6 +474,46 @@ func (isolationEngine) Run(inAny any) (out any) {
 			out = obs
 		}
 	}()
+	if in.Kind == "watch" {
+		sc := &scriptedController{}
+		rollout.VerifSetRuntimeController(sc, &handler.EnqueueRequestForObject{})
+		var objs []client.Object
+		for i, op := range in.WOps {
+			ro := &v1beta1.Rollout{ObjectMeta: metav1.ObjectMeta{Namespace: "ns", Name: fmt.Sprintf("ro-%d", i), UID: types.UID(fmt.Sprintf("ro-uid-%d", i))}}
+			ro.Spec.WorkloadRef = v1beta1.ObjectRef{APIVersion: "example.io/v1", Kind: op.Kind, Name: fmt.Sprintf("wl-%d", i)}
+			ro.Spec.Strategy.Canary = &v1beta1.CanaryStrategy{}
+			objs = append(objs, ro)
+		}
+		cli := fake.NewClientBuilder().WithScheme(FullScheme()).WithObjects(objs...).Build()
+		rec := rollout.VerifNewReconciler(cli, FullScheme(), record.NewFakeRecorder(1000))
+		for i, op := range in.WOps {
+			sc.ok = op.WatchOK
+			before := sc.calls
+			_, err := rec.Reconcile(context.TODO(), ctrl.Request{NamespacedName: types.NamespacedName{Namespace: "ns", Name: fmt.Sprintf("ro-%d", i)}})
+			after := &v1beta1.Rollout{}
+			_ = cli.Get(context.TODO(), types.NamespacedName{Namespace: "ns", Name: fmt.Sprintf("ro-%d", i)}, after)
+			switch {
+			case sc.calls > before && err != nil:
+				obs.WRes = append(obs.WRes, "error")
+			case sc.calls > before:
+				obs.WRes = append(obs.WRes, "watched-now")
+			case len(after.Finalizers) > 0 || err != nil:
+				obs.WRes = append(obs.WRes, "proceed")
+			default:
+				obs.WRes = append(obs.WRes, "nothing")
+			}
+		}
+		rollout.VerifSetRuntimeController(nil, nil)
+		return obs
+	}
+	if in.Kind == "names" {
+		together := isoRunNames(in, -1)
+		for i := range in.Names {
+			obs.Solo = append(obs.Solo, isoRunNames(in, i)[i])
+			obs.Together = append(obs.Together, together[i])
+		}
+		return obs
+	}
 	if in.Kind == "expect-store" {
 		obs.Answers = isoRunExpect(in.EOps, -1)
 		for o := 0; o < in.Owners; o++ {
@@ -579,6 +743,11 @@ func (isolationEngine) Coq(inAny any, obsAny any) string {
 		})
 		return emit.App("IExpect", ops, ans, alone, emit.Bool(obs.Panic != ""))
 	}
+	if in.Kind == "watch" {
+		gvk := func(k string) string { return schema.GroupVersionKind{Group: "example.io", Version: "v1", Kind: k}.String() }
+		return emit.App("IWatch", emit.ListOf(in.WOps, func(o ISOWatchOp) string { return emit.Pair(emit.Str(gvk(o.Kind)), emit.Bool(o.WatchOK)) }),
+			emit.ListOf(obs.WRes, emit.Str), emit.Bool(obs.Panic != ""))
+	}
 	if in.Kind == "grace-par" {
 		owners := make([]int, len(obs.Alone))
 		for i := range owners {
@@ -602,6 +771,8 @@ func (isolationEngine) Coq(inAny any, obsAny any) string {
 		return emit.App("IParK", emit.Str("canary-creation"), pairs, emit.Bool(obs.Panic != ""))
 	case "lua":
 		return emit.App("IParK", emit.Str("lua"), pairs, emit.Bool(obs.Panic != ""))
+	case "names":
+		return emit.App("IParK", emit.Str("similar-names"), pairs, emit.Bool(obs.Panic != ""))
 	}
 	return emit.App("IPar", pairs, emit.Bool(obs.Panic != ""))
 }
@@ -649,6 +820,36 @@ func (isolationEngine) Gen(r *rand.Rand, idx int, tier string) any {
 			in.Sched = append(in.Sched, ISOTenantOp{Tenant: r.Intn(k), Op: op})
 		}
 		return in
+	case 1:
+		// Rollouts of custom workload types: the dynamic watch registry, with registrations that fail
+		in := ISOInput{Kind: "watch"}
+		n := 3 + r.Intn(6)
+		for i := 0; i < n; i++ {
+			in.WOps = append(in.WOps, ISOWatchOp{Kind: pick(r, "Foo", "Foo", "Bar", "Baz"), WatchOK: chance(r, 60)})
+		}
+		return in
+	case 9:
+		// Rollouts of one namespace whose stable Services have similar (also long) names
+		in := ISOInput{Kind: "names"}
+		prefix := strings.Repeat("payments-gateway-eu-central-", 3)[:pick(r, 4, 20, 50, 56, 57, 60)]
+		k := 2 + r.Intn(2)
+		for i := 0; i < k; i++ {
+			suffix := pick(r, "a", "b", "blue", "v2", "x1")
+			name := fmt.Sprintf("%s%s%d", prefix, suffix, i)
+			if len(name) > 63 {
+				name = name[:62] + fmt.Sprint(i)
+			}
+			in.Names = append(in.Names, name)
+		}
+		n := 4 + r.Intn(8)
+		for i := 0; i < n; i++ {
+			op := "do"
+			if chance(r, 25) {
+				op = "finalise"
+			}
+			in.NSched = append(in.NSched, ISOTenantOp{Tenant: r.Intn(k), Op: op})
+		}
+		return in
 	case 7:
 		in := ISOInput{Kind: "lua", Rounds: 4 + r.Intn(6)}
 		k := 3 + r.Intn(5)
@@ -690,6 +891,13 @@ func (isolationEngine) Gen(r *rand.Rand, idx int, tier string) any {
 		c := rollouttrEngine{}.Gen(r, (idx/4)*3+i, tier).(TRInput)
 		// expectations are process-wide and start empty in both runs
 		c.X.Pending = nil
+		// as for C09: a BatchRelease owned by a Rollout carries a batchPartition inside its own plan; recalculateCanaryStep
+		// dereferences it when the plan changed (hand-edited BatchReleases are outside the properties)
+		if b := c.R.BR; b != nil && c.R.Status.Prog == "InRolling" && c.R.Status.Sub != nil && c.R.Status.Sub.Hash != "" && c.R.Status.Sub.Hash != "current" &&
+			(b.Partition == nil || *b.Partition < 0 || *b.Partition >= len(b.Batches)) && len(b.Batches) > 0 {
+			z := 0
+			b.Partition = &z
+		}
 		if chance(r, 70) && c.R.Status.Sub != nil && c.R.W.Exists {
 			// a Rollout in the middle of its cleanup with everything still in place: every reconcile goes through the
 			// grace store
